@@ -437,6 +437,10 @@ impl<'a> Sim<'a> {
         if self.config.random_node_order {
             running.shuffle(&mut self.world.borrow_mut().rng);
         }
+        #[cfg(turmoil_verif)]
+        for (addr, _) in running.iter() {
+            crate::verif::log_turn(**addr);
+        }
 
         for (&addr, rt) in running {
             let _span_guard = tracing::span!(Level::INFO, "node", name = &*rt.nodename,).entered();
